@@ -189,6 +189,17 @@ class C06(Engine):
                 sc["named"] = {f"src/{nm}": fid}      # what the oracle compares: this path is a file of that name and content
                 if v in ("src", "."):
                     sc["ops"][0]["argv"][-1] = f"src/{nm}" if cwd == "." else nm
+            elif i % 8 == 5:
+                # `..` right after a symbolic link to a directory: the operating system reaches vendor/<name>, a lexical
+                # normalisation of the path would reach proj/<name> (another file of the same name)
+                ext = nm[nm.rfind("."):]
+                others = [f for f in all_ids if f != fid and P.files[f]["name"].endswith(ext)]
+                oth = others[r.randrange(len(others))]
+                sc["files"] = {"o": {"name": nm, "base": oth, "splices": []}}
+                sc["tree"] = {"vendor": {"lib": {}, nm: "@o"}, "proj": {"ext": "->../vendor/lib", nm: "@" + fid}}
+                sc["ops"][0]["argv"][-1] = f"proj/ext/../{nm}"
+                sc["ops"][0]["cwd"] = "."
+                sc["named"] = {f"proj/{nm}": "o"}       # keyed by the normalised spelling the report is matched with
             yield 4_000_000 + i, sc
         # (e) rule-directory listing permutations (S1)
         n_perm = 8 if q else 64
@@ -366,12 +377,14 @@ class C06(Engine):
                 vs.append(mk(f"-> {got[0]} {got[1] if len(got) > 1 else ''} not explained by any file alone",
                              {"op_index": i, "argv": op["argv"], "observed": short_sig(got)}))
             return vs
+        matched = set()
         for rep in o.get("reports") or []:
             for f in rep["files"]:
                 p = norm_rel(f["path"], cwd)
                 fid = tf.get(p)
                 if fid is None:
                     continue
+                matched.add(p)
                 want = all_sigs[p]
                 if want is None or want[0] == "slow":
                     continue
@@ -394,6 +407,8 @@ class C06(Engine):
             pos = k + 1
             p = norm_rel(path, cwd)
             want = all_sigs.get(p) if p is not None else None
+            if p in all_sigs:
+                matched.add(p)
             if want is None or want[0] == "slow":
                 continue
             got = ("fatal", msg.rstrip("\n"))
@@ -401,6 +416,12 @@ class C06(Engine):
             if got != want_cmp:
                 vs.append(mk(f"-> fatal vs alone {want[0]}",
                              {"op_index": i, "argv": op["argv"], "file": p, "observed": short_sig(got), "alone": short_sig(want)}))
+        if sc.get("named") and end in ("exit", "returned"):
+            # the file was requested under this path: its verdict must be reported under this path (and base name)
+            for p in sorted(set(sc["named"]) - matched):
+                vs.append(mk("the requested file is not in the report under the path it was requested by",
+                             {"op_index": i, "argv": op["argv"], "file": p,
+                              "reported": [f["path"] for rep in o.get("reports") or [] for f in rep["files"]][:4]}))
         return vs
 
     # ---- coverage bookkeeping ------------------------------------------------------------------------
